@@ -253,7 +253,8 @@ struct Integrand
 		else
 			sup_dev = std::fabs(scale) * pabs + std::fabs((double) mean);
 		smooth = c.family == 1 || c.family == 2 || c.family == 4;
-		// Gaussians peaked off-centre are in the property's list as well. Narrow ones are judged in one and two dimensions and down
+		// Gaussians peaked off-centre are in the property's list as well. Narrow ones are judged in one dimension (any width the
+		// generator produces, down to 0.2 % of the axis, where the far side underflows to exactly zero) and in two dimensions down
 		// to a width of 1 % of the axis; below that, or in more dimensions, a recursive stratifier may legitimately do worse than
 		// plain sampling with half its budget, which is the yardstick used here.
 		if(c.family == 3 && c.ndim <= 2)
@@ -263,7 +264,7 @@ struct Integrand
 			// way round, hands the larger share of the budget to the quieter half and is - still without bias - several times
 			// noisier than plain sampling on a narrow peak; the property does not say whose standard error counts there.)
 			for(int j = 0; j < c.ndim; j++)
-				if(!(c.par[4 * j + 1] >= 0.01) || !(c.hi[j] > c.lo[j]))
+				if(!(c.par[4 * j + 1] >= (c.ndim == 1 ? 0.002 : 0.01)) || !(c.hi[j] > c.lo[j]))
 					smooth = false;
 		}
 		if(c.family == 6)
@@ -735,6 +736,7 @@ struct Gen
 	Rng r;
 	const Opts& opts;
 	Gen(uint64_t seed, const Opts& o) : r(mix64(seed ^ 0x6d63ull)), opts(o) {}
+	std::vector<double> prev_region;   // region vector {lower..., upper...} of the previous generated call
 	CallSpec random_call(uint32_t prev_seed)
 	{
 		bool thorough = opts.tier == "thorough";
@@ -828,6 +830,43 @@ struct Gen
 				c.ncalls = 100000;
 			c.family = (int) r.pick(std::vector<long long>{0, 2, 3, 3, 1});
 		}
+		if(c.frontend != 4 && !prev_region.empty() && r.chance(0.06))
+		{
+			// related requests: this call's region vector {lower..., upper...} is the leading part of the previous call's vector
+			// (fewer dimensions), or the previous vector extended by further entries (more dimensions). A key that compares only
+			// as many entries as the shorter of two vectors takes the one for the other.
+			int pd = (int) prev_region.size() / 2;
+			if(pd > 1 && r.chance(0.7))
+			{
+				int nd = (int) r.irange(1, pd - 1);
+				std::vector<double> lo(prev_region.begin(), prev_region.begin() + nd), hi(prev_region.begin() + nd, prev_region.begin() + 2 * nd);
+				bool ok = true;
+				for(int j = 0; j < nd; j++)
+					if(lo[j] == hi[j])
+						ok = false;
+				if(ok)
+				{
+					c.ndim = nd, c.lo = lo, c.hi = hi;
+					c.frontend = 0;
+				}
+			}
+			else if(pd < 6)
+			{
+				int nd = (int) r.irange(pd + 1, std::min(6, pd + 2));
+				std::vector<double> v = prev_region;
+				while((int) v.size() < 2 * nd)
+					v.push_back(v.back() + r.logrange(1e-2, 1e2));
+				c.ndim = nd;
+				c.lo.assign(v.begin(), v.begin() + nd);
+				c.hi.assign(v.begin() + nd, v.end());
+				c.frontend = 0;
+				for(int j = 0; j < nd; j++)
+					if(c.lo[j] == c.hi[j])
+						c.hi[j] = c.lo[j] + 1.0;
+			}
+			if(c.method == 1 && c.ndim >= 4)
+				c.ncalls = std::min(c.ncalls, 30000);
+		}
 		if(c.frontend != 4 && r.chance(0.15))
 		{
 			// some axes in descending order (the result changes sign once per reversed axis)
@@ -905,6 +944,8 @@ struct Gen
 		if(c.family != 0 && scale == 0.0)
 			scale = 2.0;
 		c.par.push_back(scale);
+		prev_region = c.lo;
+		prev_region.insert(prev_region.end(), c.hi.begin(), c.hi.end());
 		return c;
 	}
 	Plan generate()
